@@ -12,6 +12,12 @@ import Frp.Engines.Stack
   receives the backend's status and its body bytes, the read ending at the end of the body.
   `C02.e2eHolds` is evaluated on the implementation's own result (bodies as `len.fnv32a`, bodies of at
   most 24 bytes byte for byte).
+
+  Op `hc` (concurrent rounds, harness/eng_http_e2e_conc.go): 2-8 users at once, each on its own connection,
+  through the plain path and every client plugin.  The model runs the round's schedule of pooled codec objects
+  (`CodecPool.run Gen.CodecFacts.disc` — the recycle sites read from client/proxy/proxy.go —, state carried from round to round): `C02.codec_own_stream` says every Read / Write
+  works on its own stream, so every user is predicted to get exactly its own answers; `C02.roundHolds` is
+  evaluated on what the users and the backends really saw.
 -/
 namespace Frp
 namespace Engines
@@ -33,9 +39,101 @@ def optsOf (rest : List String) : Option Opts :=
   | some e, some c, some l => some { enc := e, comp := c, limSrv := l.startsWith "srv", limCli := l.startsWith "cli" }
   | _, _, _ => none
 
-def step (st : Unit) (tok : List String) (impl : String) : Unit × Verdict :=
+/-! ### concurrent rounds (op `hc`) -/
+
+structure State where
+  pool : CodecPool.St      -- the process-wide snappy pool as the model sees it, carried from round to round
+  nextConn : Nat
+
+def State.init : State := { pool := CodecPool.St.init, nextConn := 1 }
+
+structure UserSpec where
+  key : String
+  kind : String
+  o : Opts
+
+
+/-- `<kind>/<enc>/<comp>/<lim>` -/
+def parseUser (t : String) : Option UserSpec :=
+  match t.splitOn "/" with
+  | [kind, e, c, lim] =>
+    if (e = "0" ∨ e = "1") ∧ (c = "0" ∨ c = "1") then
+      some { key := t, kind := kind, o := { enc := e = "1", comp := c = "1", limSrv := lim.startsWith "srv", limCli := lim.startsWith "cli" } }
+    else none
+  | _ => none
+
+def isPlugin (kind : String) : Bool := kind != "plain"
+/-- https2http / https2https: an `https` proxy — the user's connection IS the work connection -/
+def userIsWork (kind : String) : Bool := kind == "s2h" || kind == "s2s"
+
+/-- the schedule of one round as far as the pooled codec objects are concerned: every user with
+    useCompression is one work connection; all are wrapped before any is released (they are alive together),
+    `sync.Pool.Get` hands out the most recently recycled object, the plugin path returns right after the wrap
+    (client/proxy/proxy.go), every exchange is a Read / Write through the wrapper -/
+def roundEvents (first : Nat) (free : List Nat) (x : Nat) (us : List UserSpec) : List CodecPool.Ev :=
+  let cs := (List.range us.length).zip us |>.filter (fun p => p.2.o.comp)
+  let starts := cs.flatMap fun (i, u) =>
+    [CodecPool.Ev.start (first + i) (isPlugin u.kind) (free[i]?)] ++ (if isPlugin u.kind then [CodecPool.Ev.ret (first + i)] else [])
+  let ios := (List.range x).flatMap fun _ => cs.map fun (i, _) => CodecPool.Ev.io (first + i)
+  let ends := cs.map fun (i, u) => if isPlugin u.kind then CodecPool.Ev.done (first + i) else CodecPool.Ev.ret (first + i)
+  starts ++ ios ++ ends
+
+/-- one exchange `<m>,<p>,<up>,<dn>,<st>` of user `u`: the expected result and the observation -/
+def exchange (u : UserSpec) (spec : String) (got : String) : Option (String × C02.ConcObs) :=
+  match spec.splitOn "," with
+  | [m, p, up, dn, stS] =>
+    match parseBody up, parseBody dn, stS.toNat? with
+    | some (uk, uv, _), some (dk, dv, _), some stW =>
+      let ufr := if uk = "-" then "no" else uk
+      let want := s!"{u.key},{m},{p},{uv},{ufr},{stW},{u.key},1,{dv},{dk},ok"
+      let f := got.splitOn ","
+      let g (i : Nat) : String := f.getD i "?"
+      let obs : C02.ConcObs :=
+        { ex := { beOk := g 0 == u.key, tagOk := g 6 == u.key, lineOk := g 1 == m && g 2 == p,
+                  upWant := Str.ofString uv, upGot := Str.ofString (g 3), stWant := stW, st := (g 5).toNat?.getD 0,
+                  downWant := Str.ofString dv, downGot := Str.ofString (g 8), ended := g 10 == "ok" },
+          echoOk := g 7 == "1" }
+      some (want, obs)
+    | _, _, _ => none
+  | _ => none
+
+def cutEx : String := "-,-,-,-,no,0,-,-,0.0,no,"
+
+def hcStep (st : State) (rest : List String) (impl : String) : State × Verdict :=
+  match stkNat rest "n", stkNat rest "x" with
+  | some n, some x =>
+    match (List.range n).mapM (fun i => (stkKV rest s!"u{i}").bind parseUser) with
+    | none => (st, .bad "hc user")
+    | some us =>
+      -- the pooled codec objects: every Read / Write of the round must work on its own stream
+      let evs := roundEvents st.nextConn st.pool.free x us
+      let (pool', outs) := CodecPool.run Gen.CodecFacts.disc st.pool evs
+      let st' : State := { pool := pool', nextConn := st.nextConn + n }
+      let own := CodecPool.ownStream outs && CodecPool.exclusive pool'
+      let perUser := (List.range n).zip us |>.mapM fun (i, u) =>
+        -- a work connection served by a client plugin's http.Server answers `pluginConnServes` requests
+        -- (ConnReader: ONE when a wrapper keeps errors); on an https proxy that connection is the user's own
+        let served := if userIsWork u.kind then ConnReader.pluginConnServes u.o x else x
+        let got := ((stkRes impl s!"u{i}").getD "").splitOn "+"
+        (List.range x).mapM (fun j =>
+          if j < served then (stkKV rest s!"e{i}.{j}").bind fun sp => exchange u sp (got.getD j "")
+          else
+            let w := cutEx ++ (if j = served then "cut" else "skip")
+            -- a request that is never answered: the property fails on it whatever came back
+            some (w, { ex := { beOk := false, tagOk := false, lineOk := false, upWant := [], upGot := [], stWant := 0, st := 0,
+                                downWant := [], downGot := [], ended := false }, echoOk := false }))
+      match perUser with
+      | none => (st, .bad "hc exchange")
+      | some rs =>
+        let model := if !own then "codec-shared" else
+          ";".intercalate ((List.range n).zip rs |>.map fun (i, r) => s!"u{i}=" ++ "+".intercalate (r.map (·.1)))
+        (st', verdictOf model impl (some (C02.roundHolds (rs.map (·.map (·.2))))))
+  | _, _ => (st, .bad "hc")
+
+def step (st : State) (tok : List String) (impl : String) : State × Verdict :=
   match tok with
-  | ["reset"] => (st, verdictOf "-" impl)
+  | ["reset"] => (State.init, verdictOf "-" impl)
+  | "hc" :: rest => hcStep st rest impl
   | "hx" :: rest =>
     match optsOf rest, stkKV rest "kind", stkKV rest "lim", stkKV rest "m", stkKV rest "p",
           (stkKV rest "up").bind parseBody, (stkKV rest "dn").bind parseBody, stkNat rest "st" with
@@ -79,7 +177,7 @@ def step (st : Unit) (tok : List String) (impl : String) : Unit × Verdict :=
 
 end HttpE2eEng
 
-def httpe2e : Engine := { State := Unit, init := (), step := HttpE2eEng.step }
+def httpe2e : Engine := { State := HttpE2eEng.State, init := HttpE2eEng.State.init, step := HttpE2eEng.step }
 
 end Engines
 end Frp
